@@ -18,13 +18,16 @@
    (any number of frames, by induction, RFrame;RCheck per frame), [read_loop_refines_lts] (the
    records the byte loop produces for concat(map frame_bytes fs) ++ rest, read off its result,
    are exactly what the LTS appends), [refine_eof_*] (how each way of ending the stream
-   corresponds to PeerEOF), and the two places where the models genuinely differ
-   ([disagree_*], with concrete witnesses).
+   corresponds to PeerEOF, including every way a frame can be cut short).
 
    The byte model is instantiated with maxbuf = max_buffered (the LTS has the constant built
    in), e_register = [] (registrations are LTS events WAccept between frames; the relation
-   [rel] is re-established from the LTS state at each frame) and e_close_sent = true (the LTS
-   sets saw_close on every CloseConnectionResponse: see [disagree_unsolicited_close]). *)
+   [rel] is re-established from the LTS state at each frame) and e_close_sent = close_sent s (the
+   LTS's counterpart of c.sentClose; constant along a run of read-side events).
+   History: a first version of this file proved two DISAGREEMENTS between the models (a frame cut
+   short on a handler path after receivedClosed; an unsolicited CloseConnectionResponse); Model.v
+   was then repaired by its owner (close_sent, eof_after_dispatch) and both inputs are now
+   agreement examples ([agree_*] at the end). *)
 From Coq Require Import NArith Arith List Bool Lia ZifyN ZifyNat ZifyBool.
 From LLRP Require Client.Stream Client.StreamProofs.
 From LLRP Require Import Client.Types Client.Model Client.InvCore.
@@ -63,7 +66,7 @@ Record rel (st : S.state) (s : state) : Prop := mkRel {
   rel_close : S.s_closed_seen st = saw_close s }.
 
 (* the environment of the byte model that corresponds to a pure read-side LTS step *)
-Definition env_of (b : S.hbeh) : S.env_step := S.mkEnv [] b true.
+Definition env_of (b : S.hbeh) (cs : bool) : S.env_step := S.mkEnv [] b cs.
 
 (* ------------------------------------------------------------------ views of a dispatch record *)
 Definition kind_of (d : S.dispatch) : hkind :=
@@ -145,10 +148,10 @@ Proof.
 Qed.
 
 (* the kind the LTS records is the kind read off the byte-level dispatch record *)
-Lemma kind_of_expected : forall aw b f,
-  kind_of (SP.expected_dispatch max_buffered cfg_of aw (env_of b) f) = handler_for cfg (S.f_typ f).
+Lemma kind_of_expected : forall aw b cs f,
+  kind_of (SP.expected_dispatch max_buffered cfg_of aw (env_of b cs) f) = handler_for cfg (S.f_typ f).
 Proof.
-  intros aw b f. unfold kind_of, SP.expected_dispatch. cbn [S.d_handler S.d_hdr S.frame_header S.h_typ].
+  intros aw b cs f. unfold kind_of, SP.expected_dispatch. cbn [S.d_handler S.d_hdr S.frame_header S.h_typ].
   rewrite pick_handler_cfg_of. unfold handler_for.
   destruct (typed_handler cfg (S.f_typ f)) as [k|] eqn:Ht.
   - apply typed_handler_ack in Ht. subst k.
@@ -156,21 +159,24 @@ Proof.
   - destruct (default_handler cfg); reflexivity.
 Qed.
 
-Lemma awaited_expected : forall st s b f, rel st s ->
-  SP.awaited cfg_of (S.s_aw st) (env_of b) f
+Lemma awaited_expected : forall st s b cs f, rel st s ->
+  SP.awaited cfg_of (S.s_aw st) (env_of b cs) f
   = consults cfg (S.f_typ f) && is_some (lookup (S.f_id f) (awaiting s)).
 Proof.
-  intros st s b f R. unfold SP.awaited, cfg_of, env_of. cbn [S.never_reply S.e_register S.register fold_left].
+  intros st s b cs f R. unfold SP.awaited, cfg_of, env_of. cbn [S.never_reply S.e_register S.register fold_left].
   rewrite negb_involutive. rewrite (rel_aw _ _ R). reflexivity.
 Qed.
 
-Lemma reply_expected : forall aw b f,
-  is_some (S.d_reply (SP.expected_dispatch max_buffered cfg_of aw (env_of b) f))
-  = SP.awaited cfg_of aw (env_of b) f.
+Lemma reply_expected : forall aw b cs f,
+  is_some (S.d_reply (SP.expected_dispatch max_buffered cfg_of aw (env_of b cs) f))
+  = SP.awaited cfg_of aw (env_of b cs) f.
 Proof.
   intros. unfold SP.expected_dispatch. cbn [S.d_reply].
-  destruct (SP.awaited cfg_of aw (env_of b) f); reflexivity.
+  destruct (SP.awaited cfg_of aw (env_of b cs) f); reflexivity.
 Qed.
+
+Lemma close_sent_same : forall s s', writer s' = writer s -> wire s' = wire s -> close_sent s' = close_sent s.
+Proof. intros s s' H1 H2. unfold close_sent. rewrite H1, H2. reflexivity. Qed.
 
 (* ------------------------------------------------------------------ one frame *)
 (* the LTS step on the abstraction of f, described through the byte-level dispatch record d *)
@@ -190,9 +196,9 @@ Record frame_sim (s s' : state) (st st' : S.state) (f : S.frame) (b : S.hbeh) (d
 }.
 
 Lemma note_close_awaiting : forall f s, awaiting (note_close_resp f s) = awaiting s.
-Proof. intros. unfold note_close_resp. destruct (_ =? _); reflexivity. Qed.
+Proof. intros. unfold note_close_resp. destruct (_ && _); reflexivity. Qed.
 Lemma note_close_callers : forall f s, callers (note_close_resp f s) = callers s.
-Proof. intros. unfold note_close_resp. destruct (_ =? _); reflexivity. Qed.
+Proof. intros. unfold note_close_resp. destruct (_ && _); reflexivity. Qed.
 
 (* what one RFrame step does, field by field (no byte model involved) *)
 Definition lts_rep (s : state) (f : frame) : bool :=
@@ -212,14 +218,15 @@ Lemma step_rframe_spec : forall s f h, reader s = RRead -> core_inv cfg s ->
   ackq s' = (match k with
              | HAck => if Nat.ltb (length (ackq s)) ack_cap then ackq s ++ [f_id f] else ackq s
              | _ => ackq s end) /\
-  saw_close s' = (saw_close s || (f_typ f =? T_CloseConnectionResponse)) /\
+  saw_close s' = (saw_close s || ((f_typ f =? T_CloseConnectionResponse) && close_sent s)) /\
   reader s' = RTop /\
   (closed s' = closed s /\ writer s' = writer s /\ out s' = out s /\ wire s' = wire s /\
    phase s' = phase s /\ errs s' = errs s /\ assigned s' = assigned s /\ next_id s' = next_id s).
 Proof.
   intros s f h Hrd CI. cbn [step]. unfold step_rframe, lts_rep. rewrite Hrd.
   unfold take_waiter, note_close_resp, run_handler, ack_enqueue, set_caller.
-  destruct (f_typ f =? T_CloseConnectionResponse) eqn:Hcl; st_simpl_goal;
+  replace (close_sent (set_peer_sent (peer_sent s ++ [f]) s)) with (close_sent s) by reflexivity.
+  destruct ((f_typ f =? T_CloseConnectionResponse) && close_sent s) eqn:Hcl; st_simpl_goal;
   destruct (consults cfg (f_typ f)) eqn:Hcons; cbn [andb orb];
   try (destruct (lookup (f_id f) (awaiting s)) as [c|] eqn:Hl; cbn [is_some];
        [destruct (ci_await _ _ CI _ _ Hl) as [r Hc]; st_simpl_goal; rewrite Hc|]);
@@ -230,15 +237,15 @@ Qed.
 
 Theorem refine_frame : forall s st f b more,
   SP.frame_wf f -> reader s = RRead -> rel st s -> core_inv cfg s ->
-  let e := env_of b in
+  let e := env_of b (close_sent s) in
   let d := SP.expected_dispatch max_buffered cfg_of (S.s_aw st) e f in
   let st' := SP.state_next cfg_of st e f in
   S.read_iter max_buffered cfg_of st e (S.frame_bytes f ++ more) = S.ItNext d st' more /\
   frame_sim s (step cfg s (RFrame (abs f) (abs_hb b (S.len (S.f_payload f))))) st st' f b d.
 Proof.
   intros s st f b more Hwf Hrd R CI e d st'. split; [apply SP.read_iter_frame; assumption|].
-  pose proof (kind_of_expected (S.s_aw st) b f) as Hkind. fold e in Hkind. fold d in Hkind.
-  pose proof (awaited_expected st s b f R) as Haw. fold e in Haw.
+  pose proof (kind_of_expected (S.s_aw st) b (close_sent s) f) as Hkind. fold e in Hkind. fold d in Hkind.
+  pose proof (awaited_expected st s b (close_sent s) f R) as Haw. fold e in Haw.
   assert (Hrep : is_some (S.d_reply d) = SP.awaited cfg_of (S.s_aw st) e f) by apply reply_expected.
   rewrite Haw in Hrep.
   pose proof (step_rframe_spec s (abs f) (abs_hb b (S.len (S.f_payload f))) Hrd CI) as Spec.
@@ -272,7 +279,7 @@ Proof.
            ++ rewrite mem_remove_other by assumption. apply (rel_aw _ _ R).
       * rewrite Hrep. apply (rel_aw _ _ R).
     + rewrite SC. unfold st', SP.state_next. cbn [S.s_closed_seen]. rewrite (rel_close _ _ R).
-      unfold e, env_of. cbn [S.e_close_sent]. rewrite andb_true_r. reflexivity.
+      unfold e, env_of. cbn [S.e_close_sent]. reflexivity.
   - exact RD.
   - exact SAME.
 Qed.
@@ -296,12 +303,14 @@ Fixpoint view_log (aw : list (N * N)) (seq : nat) (env : nat -> S.env_step) (i :
   | _, _ => ([], [])
   end.
 
-Definition read_env (env : nat -> S.env_step) : Prop :=
-  forall j, S.e_register (env j) = [] /\ S.e_close_sent (env j) = true.
+(* a pure read-side run: no registrations inside it, and the byte model's "CloseConnection has
+   been sent" is the LTS's close_sent (which read-side events do not change) *)
+Definition read_env (env : nat -> S.env_step) (s : state) : Prop :=
+  forall j, S.e_register (env j) = [] /\ S.e_close_sent (env j) = close_sent s.
 
-Lemma read_env_eta : forall env j, read_env env -> env j = env_of (S.e_beh (env j)).
+Lemma read_env_eta : forall env s j, read_env env s -> env j = env_of (S.e_beh (env j)) (close_sent s).
 Proof.
-  intros env j H. destruct (H j) as [H1 H2]. unfold env_of. destruct (env j) as [rg b cs].
+  intros env s j H. destruct (H j) as [H1 H2]. unfold env_of. destruct (env j) as [rg b cs].
   cbn in *. subst. reflexivity.
 Qed.
 
@@ -324,7 +333,7 @@ Record frames_sim (s s' : state) (st : S.state) (env : nat -> S.env_step) (i : n
 
 Theorem refine_frames : forall fs s st env i,
   Forall SP.frame_wf fs -> reader s = RRead -> closed s = false -> rel st s -> core_inv cfg s ->
-  read_env env ->
+  read_env env s ->
   frames_sim s (run_from cfg s (events_of env i fs)) st env i fs
              (SP.expected_log max_buffered cfg_of st env i fs).
 Proof.
@@ -333,22 +342,26 @@ Proof.
     constructor; rewrite ?app_nil_r; auto. repeat split; reflexivity.
   - inversion Hwf as [|? ? Hf Hfs]; subst.
     unfold run_from. cbn [events_of fold_left SP.expected_log SP.state_after].
-    rewrite (read_env_eta env i Henv).
+    rewrite (read_env_eta env s i Henv).
     destruct (refine_frame s st f (S.e_beh (env i)) [] Hf Hrd R CI) as [_ Sim].
     cbn zeta in Sim. cbn [S.e_beh env_of].
     set (b := S.e_beh (env i)) in *.
-    set (d := SP.expected_dispatch max_buffered cfg_of (S.s_aw st) (env_of b) f) in *.
+    set (cs := close_sent s) in *.
+    set (d := SP.expected_dispatch max_buffered cfg_of (S.s_aw st) (env_of b cs) f) in *.
     set (s1 := step cfg s (RFrame (abs f) (abs_hb b (S.len (S.f_payload f))))) in *.
     destruct Sim as [P D H A _ R1 RD [C1 [W1 [O1 [WI1 [PH1 [E1 [AS1 N1]]]]]]]].
     assert (CI1 : core_inv cfg s1) by (apply core_inv_step; assumption).
     rewrite (step_rcheck_open s1 RD ltac:(congruence)).
     set (s2 := set_reader RRead s1).
-    assert (R2 : rel (SP.state_next cfg_of st (env_of b) f) s2).
+    assert (R2 : rel (SP.state_next cfg_of st (env_of b cs) f) s2).
     { destruct R1 as [Ra Rc]. constructor; unfold s2; st_simpl_goal; assumption. }
     assert (CI2 : core_inv cfg s2).
     { unfold s2. rewrite <- (step_rcheck_open s1 RD ltac:(congruence)). apply core_inv_step. assumption. }
-    specialize (IH s2 (SP.state_next cfg_of st (env_of b) f) env (S i) Hfs
-                   ltac:(reflexivity) ltac:(unfold s2; st_simpl_goal; congruence) R2 CI2 Henv).
+    assert (Henv2 : read_env env s2).
+    { intro j. destruct (Henv j) as [He1 He2]. split; [assumption|]. rewrite He2. symmetry.
+      apply close_sent_same; unfold s2; st_simpl_goal; assumption. }
+    specialize (IH s2 (SP.state_next cfg_of st (env_of b cs) f) env (S i) Hfs
+                   ltac:(reflexivity) ltac:(unfold s2; st_simpl_goal; congruence) R2 CI2 Henv2).
     unfold run_from in IH. fold s2.
     destruct IH as [P' D' H' R' RD' C' CI' [W' [O' [WI' [PH' [E' [AS' N']]]]]]].
     assert (Q : peer_sent s2 = peer_sent s1 /\ delivered s2 = delivered s1 /\ handled s2 = handled s1 /\
@@ -361,12 +374,12 @@ Proof.
     rewrite Q1, Q2, Q4, Hlen, A in D'. rewrite Q1, Q3, Q4, Hlen, A in H'. rewrite Q1 in P'.
     constructor; cbn [view_log map];
       destruct (view_log (aw_after (awaiting s) f d) (S (length (peer_sent s))) env (S i) fs
-                  (SP.expected_log max_buffered cfg_of (SP.state_next cfg_of st (env_of b) f) env (S i) fs))
+                  (SP.expected_log max_buffered cfg_of (SP.state_next cfg_of st (env_of b cs) f) env (S i) fs))
         as [dl hl] eqn:Hv; cbn [fst snd] in *.
     + rewrite P', P, <- app_assoc. reflexivity.
     + rewrite D', D, <- app_assoc. reflexivity.
     + rewrite H', H, <- app_assoc. reflexivity.
-    + cbn [SP.state_after]. rewrite (read_env_eta env i Henv). exact R'.
+    + cbn [SP.state_after]. rewrite (read_env_eta env s i Henv). exact R'.
     + assumption.
     + assumption.
     + assumption.
@@ -381,7 +394,7 @@ Qed.
    statement composes with whatever happens to [rest] (see refine_eof_* below). *)
 Theorem read_loop_refines_lts : forall fs s st env rest,
   Forall SP.frame_wf fs -> reader s = RRead -> closed s = false -> rel st s -> core_inv cfg s ->
-  read_env env ->
+  read_env env s ->
   let r := S.serve max_buffered cfg_of st env (concat (map S.frame_bytes fs) ++ rest) in
   let log := firstn (length fs) (S.r_log r) in
   r = SP.prepend log (SP.serve_from max_buffered cfg_of (SP.state_after cfg_of st env O fs) env (length fs) rest) /\
